@@ -1,6 +1,8 @@
 """Runs in a fresh interpreter (its own PYTHONHASHSEED): parses a schema, runs one generator, prints {path: contents} as JSON.
 argv: <schema file> <generator> <outdir> [history]   history = 'none' | 'busy' (parse/generate other things first) | 'twice' |
-'module-rewritten:<file>' (the schema's module held <file>'s text during a first parse+generate of this process) | 'others-first' (the other generators run first on the same parsed object) | 'after:<other schema file>' (parse that schema - same type names, other definitions - and run every generator on it first)"""
+'module-rewritten:<file>' (the schema's module held <file>'s text during a first parse+generate of this process) | 'others-first' (the other generators run first on the same parsed object) | 'after:<other schema file>' (parse that schema - same type names, other definitions - and run every generator on it first) |
+'same-object-after:<other schema file>' (the same, and the very Generator OBJECTS that generated from the other schema generate from this one:
+a long-running tool keeps one generator per plug-in)"""
 import contextlib
 import io
 import json
@@ -8,11 +10,16 @@ import os
 import sys
 
 
+KEPT = {}      # plug-in name -> Generator object, when the history keeps one per plug-in
+KEEP = False
+
+
 def generate(name, fcp, outdir):
     import importlib
     mod = importlib.import_module("fcp_" + name)
+    gen = KEPT.setdefault(name, mod.Generator()) if KEEP else mod.Generator()
     with contextlib.redirect_stdout(io.StringIO()):
-        res = mod.Generator().generate(fcp, {"output": outdir})
+        res = gen.generate(fcp, {"output": outdir})
     return {os.path.relpath(str(r["path"]), outdir) if r.get("type") == "file" else "<print>": str(r["contents"]) for r in res}
 
 
@@ -27,6 +34,10 @@ def main():
             except Exception:
                 pass
         get_fcp_from_string("version: \"3\"\nstruct X { a @0: u8, }")
+    if history.startswith("same-object-after:"):
+        global KEEP
+        KEEP = True
+        history = history[len("same-object-"):]
     if history.startswith("after:"):
         try:
             other = get_fcp(history[6:]).unwrap()
